@@ -4,6 +4,7 @@ import (
 	"bytes"
 	"errors"
 	"fmt"
+	"strings"
 
 	"github.com/WICG/webpackage/go/internal/cbor"
 	"github.com/WICG/webpackage/go/signedexchange/zverif/mc"
@@ -427,12 +428,96 @@ func init() {
 		},
 	}
 
+	// ... including items whose head argument sits at a head-width boundary: the real encoder's output for uints,
+	// string lengths, array counts and map sizes of 23, 24, 255, 256, 65535, 65536 (uints also 2^32-1, 2^32) in
+	// three contexts must be accepted (and must be what the reference calls deterministic)
+	encBound := &mc.Harness{
+		Name: "C13/encoder-output-boundaries",
+		Run: func(c *mc.Ctx) {
+			vals := []uint64{0, 23, 24, 255, 256, 65535, 65536, 1<<32 - 1, 1 << 32}
+			v := vals[c.Free(len(vals), "value")]
+			kind := c.Free(5, "kind: uint / bytes / text / array / map")
+			if kind != 0 && v > 65536 {
+				c.Outcome("skipped: container of 2^32 elements")
+				return
+			}
+			var buf bytes.Buffer
+			e := cbor.NewEncoder(&buf)
+			ctx := c.Free(3, "context: top / array element / map value")
+			switch ctx {
+			case 1:
+				e.EncodeArrayHeader(2)
+				e.EncodeUint(1)
+			}
+			item := func(e *cbor.Encoder) error {
+				switch kind {
+				case 0:
+					return e.EncodeUint(v)
+				case 1:
+					return e.EncodeByteString(bytes.Repeat([]byte{7}, int(v)))
+				case 2:
+					return e.EncodeTextString(strings.Repeat("t", int(v)))
+				case 3:
+					if err := e.EncodeArrayHeader(int(v)); err != nil {
+						return err
+					}
+					for i := uint64(0); i < v; i++ {
+						if err := e.EncodeUint(i & 1); err != nil {
+							return err
+						}
+					}
+					return nil
+				default:
+					var mes []*cbor.MapEntryEncoder
+					for i := uint64(0); i < v; i++ {
+						i := i
+						mes = append(mes, cbor.GenerateMapEntry(func(k, val *cbor.Encoder) { k.EncodeUint(i); val.EncodeUint(0) }))
+					}
+					return e.EncodeMap(mes)
+				}
+			}
+			var err error
+			if ctx == 2 {
+				err = e.EncodeMap([]*cbor.MapEntryEncoder{cbor.GenerateMapEntry(func(k, val *cbor.Encoder) { k.EncodeUint(1); err = item(val) })})
+			} else {
+				err = item(e)
+			}
+			desc := fmt.Sprintf("encoder output: kind %d, value %d, context %d", kind, v, ctx)
+			if err != nil {
+				c.Fail("C13/encoder-output-boundaries:"+desc+":encode", "the encoder failed on a plain buffer", desc, "nil", err.Error())
+				return
+			}
+			out := buf.Bytes()
+			c.Eval()
+			c.State([]byte(desc))
+			clip := func(b []byte) string {
+				if len(b) > 24 {
+					return hx(b[:24]) + fmt.Sprintf("... (%d bytes)", len(b))
+				}
+				return hx(b)
+			}
+			if rerr := refcbor.Deterministic(out); rerr != nil {
+				c.Outcome("encoder output not deterministic by the reference")
+				c.Fail("C13/encoder-output-boundaries:"+desc+":ref", "the encoder's output is not in deterministic form according to the reference recogniser", desc, "deterministic", rerr.Error()+" "+clip(out))
+				return
+			}
+			verdict, detail := c13Run(out)
+			if verdict != "accept" {
+				c.Outcome("encoder output refused")
+				c.Fail("C13/encoder-output-boundaries:"+desc, "Deterministic refuses what the encoder emits", desc+" "+clip(out), "nil", verdict+": "+detail)
+				return
+			}
+			c.Nontrivial([]byte(desc))
+			c.Outcome("encoder output accepted")
+		},
+	}
+
 	register(&mc.Property{
 		ID:          "C13",
 		Level:       "model_checking",
-		Rule:        "choice-tree enumeration of inputs to cbor.Deterministic executed in watchdog-supervised workers: all byte strings of length <=2 (quick) / <=3 (thorough, 16.8 M); all strings of length <=4 (quick) / <=5 (thorough) over a 23-byte grammar alphabet; every head of the subset with an argument from a 32-value boundary list (incl. 2^62, 2^63+-1, 2^64-k for k<=16) in every head width, 0..3 content bytes, in 5 nesting contexts; byte and text strings of 23, 24, 25, 255, 256, 257, 65535, 65536 bytes in 8 contexts (alone, after an item, last array element, last map value, nested twice, followed by an item, as a map key), intact, cut short by 1..10 bytes, or with a declared length off by +1..+9 / -1, -2, -9; every map of 1..3 pairs with keys (with repetition, every order) from an 11-key pool of mixed types/lengths and 4 value shapes in 3 contexts; every generated nested item with <=4 nodes (quick; thorough also <=5 nodes, those unmutated or with a key pair swapped / duplicated or a trailing byte), depth <=3, unmutated and with one mutation (head widened, length/count replaced by each of 9 boundary values (thorough: all 32), key pair swapped/duplicated, truncation at every offset, trailing byte). Oracle: reference recogniser refcbor.Deterministic (total, uint64 arithmetic); panic counts as refusal, non-termination (watchdog) is a violation. Non-trivial = reference made a verdict the implementation matched; distinct by input hash.",
+		Rule:        "choice-tree enumeration of inputs to cbor.Deterministic executed in watchdog-supervised workers: all byte strings of length <=2 (quick) / <=3 (thorough, 16.8 M); all strings of length <=4 (quick) / <=5 (thorough) over a 23-byte grammar alphabet; every head of the subset with an argument from a 32-value boundary list (incl. 2^62, 2^63+-1, 2^64-k for k<=16) in every head width, 0..3 content bytes, in 5 nesting contexts; byte and text strings of 23, 24, 25, 255, 256, 257, 65535, 65536 bytes in 8 contexts (alone, after an item, last array element, last map value, nested twice, followed by an item, as a map key), intact, cut short by 1..10 bytes, or with a declared length off by +1..+9 / -1, -2, -9; every map of 1..3 pairs with keys (with repetition, every order) from an 11-key pool of mixed types/lengths and 4 value shapes in 3 contexts; every generated nested item with <=4 nodes (quick; thorough also <=5 nodes, those unmutated or with a key pair swapped / duplicated or a trailing byte), depth <=3, unmutated and with one mutation (head widened, length/count replaced by each of 9 boundary values (thorough: all 32), key pair swapped/duplicated, truncation at every offset, trailing byte). The real encoder's output for uints, string lengths, array counts and map sizes at 0, 23, 24, 255, 256, 65535, 65536 (uints also 2^32-1, 2^32) in three contexts must be accepted. Oracle: reference recogniser refcbor.Deterministic (total, uint64 arithmetic); panic counts as refusal, non-termination (watchdog) is a violation. Non-trivial = reference made a verdict the implementation matched; distinct by input hash.",
 		Assumptions: []string{"refcbor.Deterministic implements RFC 8949 section 4.2.1 for major types 0,2,3,4,5 (text is not required to be valid UTF-8: well-formedness, not validity)", "a panic of cbor.Deterministic is its way of refusing truncated input (required by the repository's own tests)"},
-		Harnesses:   []*mc.Harness{all, reduced, wide, long, maps, trees, encOut},
+		Harnesses:   []*mc.Harness{all, reduced, wide, long, maps, trees, encOut, encBound},
 		Guard: func(s map[string]*mc.Stats) error {
 			t := s["C13/generated-items"]
 			if t.Executions < 10000 {
